@@ -21,6 +21,7 @@ type GenCfg struct {
 	SliceCall bool // allow calls in slice bounds (two-call slices expose the bound-order finding)
 	NilSafe   bool
 	NoInRange bool // do not generate `x in <literal range>` (development aid)
+	Overload  bool // the ** operator is overloaded for two *Obj operands (OpA)
 	MapRep    bool // the environment is a map[string]interface{}: lower-case members exist, Any has its value's static type
 }
 
@@ -130,6 +131,13 @@ func (g *gen) Int() *N {
 			if !g.cfg.Objects {
 				continue
 			}
+			if g.cfg.Overload && g.r.Chance(1, 2) {
+				r := nID("O")
+				if g.cfg.Failing && g.r.Chance(1, 2) {
+					r = nProp(nID("O"), "Next", false)
+				}
+				return nBin("**", nID("O"), r) // overloaded: OpA(O, r)
+			}
 			if g.cfg.Failing && g.r.Chance(1, 3) {
 				return nProp(nProp(nID("O"), "Next", false), "V", false)
 			}
@@ -145,7 +153,12 @@ func (g *gen) Int() *N {
 			if a == nil {
 				continue
 			}
-			switch g.r.Intn(5) {
+			switch g.r.Intn(6) {
+			case 5:
+				if g.cfg.Maps && g.cfg.Failing && (a.K == "call" || !g.cfg.MapRep) {
+					return nIdx(nID("Mp"), a) // a dynamic key: fails unless it holds a string
+				}
+				return nUn("-", a)
 			case 0:
 				return nBin(g.r.Pick([]string{"+", "-", "*"}), a, g.Int())
 			case 1:
@@ -405,6 +418,11 @@ func (g *gen) Bool() *N {
 			op := g.r.Pick([]string{"in", "not in"})
 			lo := g.r.Range(-3, 4)
 			hi := lo + g.r.Range(-1, 5)
+			if g.cfg.Dyn && g.r.Chance(1, 4) {
+				if a := g.dynAtom(); a != nil && (a.K == "call" || !g.cfg.MapRep) {
+					return nBin(op, a, nBin("..", nInt(lo), nInt(hi))) // a dynamic value: in no range unless an int
+				}
+			}
 			return nBin(op, g.Int(), nBin("..", nInt(lo), nInt(hi)))
 		case 9:
 			// literal array: the optimiser rewrites this into a map lookup
@@ -650,6 +668,13 @@ func (g *gen) optBound() *N {
 func (g *gen) Seq() *N {
 	if !g.take() {
 		return g.seqLeaf()
+	}
+	if n := len(g.closure); n > 0 && !g.cfg.AllocOnly && g.r.Chance(1, 5) {
+		// the collection of an inner builtin mentions the OUTER closure's element
+		if g.closure[n-1] == "obj" {
+			return nProp(nPtr(), "Xs", false)
+		}
+		return nBin("..", nInt(g.r.Range(0, 1)), nBin("+", nPtr(), nInt(g.r.Range(0, 2))))
 	}
 	for {
 		switch g.r.Intn(12) {
